@@ -174,9 +174,16 @@ def main(argv):
         mod.run(ctx)
         return ctx.finish()
     except Inconclusive as e:
+        if ctx.violations:
+            # violations witnessed before the exploration broke off stay violations (each has its replay record)
+            print(f"note: exploration broke off ({str(e)[:300]}); reporting the {len(ctx.violations)} violation(s) witnessed before that")
+            return ctx.finish()
         print(f"INCONCLUSIVE property={prop}: {e}")
         return 2
     except runner.HarnessError as e:
+        if ctx.violations:
+            print(f"note: exploration broke off (harness error: {str(e)[:300]}); reporting the {len(ctx.violations)} violation(s) witnessed before that")
+            return ctx.finish()
         traceback.print_exc()
         print(f"INCONCLUSIVE property={prop}: harness error: {e}")
         return 2
